@@ -87,9 +87,90 @@ def check_growth(run, db, fns=None):
     return n
 
 
+def _list_bytes(db, f, roles, which):
+    """byte terms handed to FreeList::allocate(n) / FreeList::deallocate(ptr, n) on the returning paths of f, helpers of the pool
+    (same class, or the pool's members when f is a traits member) inlined"""
+    def inl(fn, callee, t):
+        if len(callee.blocks) > 16:
+            return False
+        cc = cls_template(callee.cls)
+        return cc in ('memory_pool', 'memory_pool_collection') and callee.short in (
+            'allocate_array', 'try_allocate_array', 'deallocate_array', 'try_deallocate_array', 'node_size') and callee.key != fn.key
+    out = set()
+    for s in fwd.summarize(f, db=db, roles=roles, inline_pred=inl, no_forward=True):
+        if s.end != 'return':
+            continue
+        for c in s.calls:
+            t = c[1]
+            if t.get('k') == 'call' and t.get('short') == which and 'free_memory_list' in t.get('cls', ''):
+                a = c02._call_args(c[0], which)
+                want = 1 if which == 'allocate' else 2
+                if len(a) == want and a[-1] != '':
+                    out.add(a[-1])
+    return out
+
+
+def check_array_bytes(run, db):
+    """an array is released with the byte count it was acquired with: the term given to FreeList::deallocate(ptr, bytes) by each
+    release function equals the term given to FreeList::allocate(bytes) by its acquire sibling (member functions of the pools and
+    their allocator_traits / composable traits)"""
+    n = 0
+    groups = {}
+    for f in db.fns.values():
+        if f.pattern:
+            continue
+        ct = cls_template(f.cls)
+        if ct in ('allocator_traits', 'composable_allocator_traits'):
+            inner = cls_template(f.cls[f.cls.index('<') + 1:])
+            if inner not in ('memory_pool', 'memory_pool_collection'):
+                continue
+            kind = 'traits'
+        elif ct in ('memory_pool', 'memory_pool_collection'):
+            kind = 'member'
+        else:
+            continue
+        if f.short in ('allocate_array', 'try_allocate_array', 'deallocate_array', 'try_deallocate_array'):
+            groups.setdefault((f.cls, kind), []).append(f)
+    for (cls, kind), fns in sorted(groups.items()):
+        for acq_name, rel_name in (('allocate_array', 'deallocate_array'), ('try_allocate_array', 'try_deallocate_array')):
+            for a in [f for f in fns if f.short == acq_name]:
+                off = 1 if kind == 'traits' else 0
+                # the release sibling has one more parameter (the pointer)
+                rels = [f for f in fns if f.short == rel_name and len(f.params) == len(a.params) + 1]
+                if not rels:
+                    continue
+                r = rels[0]
+                names = ['count', 'size', 'alignment']
+                ra = {off + i: names[i] for i in range(len(a.params) - off)}
+                rr = {off: 'ptr'}
+                rr.update({off + 1 + i: names[i] for i in range(len(a.params) - off)})
+                if off:
+                    ra[0] = rr[0] = 'state'
+                try:
+                    A, R = _list_bytes(db, a, ra, 'allocate'), _list_bytes(db, r, rr, 'deallocate')
+                except sym.PathLimit as e:
+                    run.broke(str(e))
+                    continue
+                if not A and not R:
+                    continue
+                if 'small_node_pool' in cls and (not A or not R):
+                    continue        # this pool type does not support arrays: the array members assert / return null
+                n += 1
+                inst = '%s <-> %s [%s]' % (a.display, rel_name, db.config)
+                site = {'function': '%s::%s' % (cls_template(cls) if kind == 'member' else cls_template(cls) + '<' + cls_template(cls[cls.index('<') + 1:]) + '>', acq_name),
+                        'role': 'array released with the bytes it was acquired with'}
+                if A != R:
+                    run.violation('R-UNLINK.bytes', inst, a.loc, 'the free list is asked for %s bytes on allocation but given back %s bytes on deallocation: '
+                                  'the node counts of an allocate/deallocate cycle differ' % (sorted(A) or 'no', sorted(R) or 'no'), site=site)
+                else:
+                    run.ok('R-UNLINK.bytes', inst, a.loc, 'FreeList::allocate(%s) <-> FreeList::deallocate(ptr, %s)' % (sorted(A)[0], sorted(R)[0]))
+    return n
+
+
 def run(run):
     run.rule('R-UNLINK', 'acquire/release node-count agreement and capacity_ bookkeeping', floor=10)
     run.rule('R-RUN', 'the array search accounts the found interval exactly (one node at the start and after a gap, + node size per contiguous node) and stops at the first fit', floor=2)
+    run.rule('R-UNLINK.bytes', 'array acquire and release siblings of the pools hand the free list the same byte count', floor=10)
     run.rule('R-GROW', 'growth only when the free list is empty (node) or the search failed (array)', floor=10)
     run.explanation = ('"Exactly the memory that was taken becomes available again" is decided as term agreement between what allocate(n) unlinks '
                        '(ceil(n/node_size) nodes, from the search loop) and what deallocate(ptr,n) links, plus exact capacity_ bookkeeping; '
@@ -102,6 +183,8 @@ def run(run):
             run.broke('free list functions not found [%s]' % cfg)
         if c02.check_run(run, db) < 2:
             run.broke('array search functions not found [%s]' % cfg)
+        if check_array_bytes(run, db) < 6:
+            run.broke('array siblings of the pools not found [%s]' % cfg)
         if check_growth(run, db) < 8:
             run.broke('pool allocation functions not found [%s]' % cfg)
     fixtures.expect_fire(run, 'c04_bad.cpp', _fixture, 'R-GROW')
